@@ -1384,11 +1384,20 @@ package snaps
 //@   assigns nothing
 //@   ensures r == sprintf_d(s, i)
 //@
+// natCmp: the comparator of Clean's sort. cmpOf(f, a, b) is the value of calling the function value f; for naturalSort it
+// is natCmp (postcondition cmp of naturalSort). sortedBy(f, s) is what slices.IsSortedFunc reports and slices.SortFunc
+// establishes; that a sorted sequence has no inverted PAIR (not only no inverted neighbours) is ASSUMED: it holds when f is
+// a strict weak order (natural.Less: assumed; asymmetry and irreflexivity are sampled by the bounded stand-in).
+//@ specfun natCmp(a Str, b Str) Int = a == b ? 0 : (naturalLess(a, b) ? -1 : 1)
+//@ specfun cmpOf(f Fn, a Str, b Str) Int
+//@ axiom cmpOf_naturalSort: forall a Str, b Str {cmpOf(fn.snaps.naturalSort, a, b)}: cmpOf(fn.snaps.naturalSort, a, b) == natCmp(a, b)
+//@ axiom sortedBy_pairs: forall f Fn, s Slice<Str>, i Int, j Int {sortedBy(f, s), s[i], s[j]}: sortedBy(f, s) && 0 <= i && i < j && j < len(s) ==> cmpOf(f, s[j], s[i]) >= 0
 //@ func naturalSort(a, b) returns (r)
 //@   mode ctl
 //@   assigns nothing
 //@   ensures (r == 0) == (a == b)
 //@   ensures a != b ==> (naturalLess(a, b) ? r == -1 : r == 1)
+//@   ensures [cmp] r == natCmp(a, b)
 //@
 // A formatter is a pure function; occFmt(f, s, i) is its value. The two formatters of this package:
 //@ axiom occFmt_snapshot: forall s Str, i Int {occFmt(fn.snaps.snapshotOccurrenceFMT, s, i)}: occFmt(fn.snaps.snapshotOccurrenceFMT, s, i) == s + " - " + itoa(i)
@@ -1612,6 +1621,14 @@ package snaps
 //@      reportedAll(F0, E, nn, d, v, count, runOnly, sk) == reportedAllDef(F0, E, nn, d, v, count, runOnly, sk)
 //@ lemma reported_store @C09 use=lines: forall F0 Str, E Array<Str,Bool>, y Str, nn Bool, d Array<Str,Bool>, v Array<Str,Int>, count Int, runOnly Str, sk Slice<Str> {reportedAll(F0, store(E, y, true), nn, d, v, count, runOnly, sk)}:
 //@      reportedAll(F0, E, nn, d, v, count, runOnly, sk) ==> reportedAll(F0, store(E, y, true), nn, d, v, count, runOnly, sk)
+// relSorted(F0, F1, ...): of two different entries of F0 that are kept, the one whose id is smaller in the natural order
+// has its header earlier in F1
+//@ specfun relSorted(F0 Str, F1 Str, update Bool, nn Bool, d Array<Str,Bool>, v Array<Str,Int>, count Int, runOnly Str, sk Slice<Str>) Bool
+//@ specfun relSortedDef(F0 Str, F1 Str, update Bool, nn Bool, d Array<Str,Bool>, v Array<Str,Int>, count Int, runOnly Str, sk Slice<Str>) Bool = forall e1 in 0..nent(F0): forall e2 in 0..nent(F0):
+//@      e1 != e2 && (!update || liveID(idOfHdr(tok(F0, ehdr(F0, e1))), nn, d, v, count, runOnly, sk)) && (!update || liveID(idOfHdr(tok(F0, ehdr(F0, e2))), nn, d, v, count, runOnly, sk))
+//@      && naturalLess(idOfHdr(tok(F0, ehdr(F0, e1))), idOfHdr(tok(F0, ehdr(F0, e2)))) ==> hdrPos(F1, tok(F0, ehdr(F0, e1))) < hdrPos(F1, tok(F0, ehdr(F0, e2)))
+//@ axiom relSorted_def: forall F0 Str, F1 Str, update Bool, nn Bool, d Array<Str,Bool>, v Array<Str,Int>, count Int, runOnly Str, sk Slice<Str> {relSorted(F0, F1, update, nn, d, v, count, runOnly, sk)}:
+//@      relSorted(F0, F1, update, nn, d, v, count, runOnly, sk) == relSortedDef(F0, F1, update, nn, d, v, count, runOnly, sk)
 //@ lemma cap_props @C07,C09,C10 use=lines: forall F Str, e1 Int, T Str, e2 Int {capPart(F, e1, T, eend(F, e1)), ehdr(F, e2)}: entryForm(F) && 0 <= e1 && e1 < nent(F) && 0 <= e2 && e2 < nent(F) && capOK(F, e1, T) ==> lacksT(T, tok(F, ehdr(F, e2))) && noENDt(T) && term(T)
 //@ lemma entry_kept @C07,C09,C10 use=lines: forall F Str, G Str, e Int, T Str {capPart(F, e, T, eend(F, e)), bodyIs(G, tok(F, ehdr(F, e)), T)}: entryForm(F) && 0 <= e && e < nent(F) && capOK(F, e, T) && found(G, tok(F, ehdr(F, e))) && bodyIs(G, tok(F, ehdr(F, e)), T)
 //@      ==> body(G, tok(F, ehdr(F, e))) == body(F, tok(F, ehdr(F, e)))
@@ -1632,6 +1649,8 @@ package snaps
 //@   ensures [only_used] forall p Str {fsc[p]}: (forall k in 0..len(used): used[k] != p) ==> fsc[p] == old(fsc)[p]
 //@   ensures [content_kept] forall kk in 0..len(used): uniqAt(used, kk) && entryForm(old(fsc)[used[kk]]) && err == nil
 //@        ==> relClean(old(fsc)[used[kk]], fsc[used[kk]], update, registry[used[kk]] != nil, dom(registry[used[kk]]), vals(registry[used[kk]]), count, runOnly, skippedTests.values)
+//@   ensures [sorted] forall kk in 0..len(used): sort && uniqAt(used, kk) && entryForm(old(fsc)[used[kk]]) && err == nil
+//@        ==> relSorted(old(fsc)[used[kk]], fsc[used[kk]], update, registry[used[kk]] != nil, dom(registry[used[kk]]), vals(registry[used[kk]]), count, runOnly, skippedTests.values)
 //@   ensures [report] forall kk in 0..len(used): uniqAt(used, kk) && entryForm(old(fsc)[used[kk]]) && err == nil
 //@        ==> reportedAll(old(fsc)[used[kk]], elems(obs), registry[used[kk]] != nil, dom(registry[used[kk]]), vals(registry[used[kk]]), count, runOnly, skippedTests.values)
 //@   let mapsKept = forall r0 Ref: old(alloc)[r0] ==> domheap("map[string]struct{}")[r0] == old(domheap("map[string]struct{}"))[r0] && valheap("map[string]struct{}")[r0] == old(valheap("map[string]struct{}"))[r0]
@@ -1651,7 +1670,10 @@ package snaps
 //@   let repOK = forall kk in 0..$idx_1: uniqAt(used, kk) && entryForm(old(fsc)[used[kk]])
 //@        ==> reportedAll(old(fsc)[used[kk]], elems(obsoleteTests), registry[used[kk]] != nil, dom(registry[used[kk]]), vals(registry[used[kk]]), count, runOnly, skippedTests.values)
 //@   loop 1 invariant [visited] unvisited && doneOK
+//@   let sortedOK = forall kk in 0..$idx_1: sort && uniqAt(used, kk) && entryForm(old(fsc)[used[kk]])
+//@        ==> relSorted(old(fsc)[used[kk]], fsc[used[kk]], update, registry[used[kk]] != nil, dom(registry[used[kk]]), vals(registry[used[kk]]), count, runOnly, skippedTests.values)
 //@   loop 1 invariant [report] repOK
+//@   loop 1 invariant [sorted] sortedOK
 //@   loop 1.1 invariant mapsKept && gate && locals && 0 <= $idx_1 && $idx_1 < len(used) && snapPath == used[$idx_1]
 //@   loop 1.1 invariant f != nil && !old(alloc)[f] && fpath[f] == snapPath && s != nil && !old(alloc)[s] && s != f && s != data && f != data && scunb[s] && scsrc[s] == fsc[snapPath] && 0 <= scpos[s] && scpos[s] <= ntok(scsrc[s])
 //@   loop 1.1 invariant registeredTests != nil
@@ -1687,6 +1709,10 @@ package snaps
 //@   let G = fsc[snapPath]
 //@   loop 1.2 invariant [visited] (forall p Str {fsc[p]}: p != snapPath && (forall k2 in 0..$idx_1: used[k2] != p) ==> fsc[p] == old(fsc)[p]) && doneOK
 //@   loop 1.2 invariant [open] s != nil && ((forall k2 in 0..$idx_1: used[k2] != snapPath) ==> F == old(fsc)[snapPath]) && foff[f] == len(G)
+//@   loop 1.2 invariant [sorted] sortedOK && (sort ==> sortedBy(fn.snaps.naturalSort, testIDs))
+//@   loop 1.2 invariant [order] entryForm(F) ==> (forall e1 in 0..nent(F): forall e2 in 0..nent(F):
+//@         idxOf(testIDs, idOfHdr(tok(F, ehdr(F, e1)))) < idxOf(testIDs, idOfHdr(tok(F, ehdr(F, e2)))) && idxOf(testIDs, idOfHdr(tok(F, ehdr(F, e2)))) < $idx
+//@         && has(tests, idOfHdr(tok(F, ehdr(F, e1)))) && has(tests, idOfHdr(tok(F, ehdr(F, e2)))) ==> hdrPos(G, tok(F, ehdr(F, e1))) < hdrPos(G, tok(F, ehdr(F, e2))))
 //@   loop 1.2 invariant [regs] (forall x Str {has(registeredTests, x)}: has(registeredTests, x) == occKeyU(registry[snapPath] != nil, dom(registry[snapPath]), vals(registry[snapPath]), count, fn.snaps.snapshotOccurrenceFMT, x))
 //@   loop 1.2 invariant [emit] entryForm(F) ==> n == nent(F) && term(G) && wf(G) && 0 <= $idx && $idx <= n
 //@       && (forall k in 0..n: isLine(testIDs[k]) && 0 <= eidx(F, "[" + testIDs[k] + "]") && eidx(F, "[" + testIDs[k] + "]") < nent(F) && tok(F, ehdr(F, eidx(F, "[" + testIDs[k] + "]"))) == "[" + testIDs[k] + "]")
